@@ -58,7 +58,7 @@ var realStub = map[string]string{
 	"wall clock":                                                             "real (simulated time = block header time)",
 }
 
-func writeEvidence(prop, tier string, seed uint64, results []*RunResult, nviol int, wall float64, tc tierCfg) error {
+func writeEvidence(prop, tier string, seed uint64, results []*RunResult, nviol int, wall float64, tc tierCfg, extra map[string]interface{}) error {
 	rule, ok := ntRules[prop]
 	if !ok {
 		rule = ntRule{"every run counts", func(map[string]int64) bool { return true }}
@@ -134,6 +134,9 @@ func writeEvidence(prop, tier string, seed uint64, results []*RunResult, nviol i
 		"components":                 realStub,
 		"gomaxprocs_per_worker":      "1/4/16 round-robin",
 		"exhaustive":                 false,
+	}
+	for k, v := range extra {
+		cov[k] = v
 	}
 	ev := map[string]interface{}{
 		"property_id": prop, "tier": tier, "seed": int64(seed & 0x7fffffffffffffff), "level": level, "coverage": cov, "wall_s": wall, "violations": nviol,
